@@ -63,7 +63,7 @@ class Canon:
     def prefix(self, p):
         e = p.exponent
         if isinstance(e, float):
-            if e == int(e):
+            if math.isfinite(e) and e == int(e):
                 e = int(e)
             else:
                 return {"mixed": True, "base": p.base, "exp": repr(e)}
